@@ -24,7 +24,7 @@ EXPLANATION = (
     "while exlist[0] < ritem and an item is yielded iff ritem != exlist[0]; the yield is dominated by the "
     "last-yielded test and that variable is redefined from ritem.dt on every path to the back edge. C10.HEAP: "
     "after an exhausted member the heap is repaired (heappop under `genlist[0] is self`, else remove+heapify); "
-    "heapreplace(L, x) only under `L and L[0] is x`, directly after advance_iterator(x). C10.SORT: date lists "
+    "heapreplace(L, x) only under `L and L[0] is x`, directly after advance_iterator(x). C10.STOPITER: StopIteration of a member never escapes _genitem (exception-escape analysis) and the heaps hold only _genitem objects. C10.SORT: date lists "
     "are sorted before being merged. C10.LEN: every generator exit publishes the number of yielded items.")
 ASSUMPTIONS = [
     "heapq functions and list.sort behave as documented",
@@ -270,6 +270,31 @@ def run(ctx):
             ctx.ob("C10.HEAP", it, "the heap root test follows advance_iterator(%s) immediately" % item, oka,
                    construct="advance_iterator(%s) ; if %s and %s[0] is %s" % (item, L, L, item), analysis="CFG successor")
     ctx.floor("C10.HEAP", n_adv, 2, "advance_iterator sites on heap roots")
+
+    # ---------------------------------------------------------------- C10.STOPITER
+    from ..exc import Analyzer
+    an = Analyzer(prog)
+    for mname in ("__next__", "__init__"):
+        m = gi.methods[mname]
+        esc = [r for r in an.escapes(m) if r.exc == "StopIteration"]
+        ctx.ob("C10.STOPITER", m, "exhaustion of a member iterator never escapes _genitem.%s as StopIteration (inside the merge generator it "
+               "would end or break the whole set)" % mname, not esc, construct="StopIteration containment in _genitem.%s" % mname,
+               detail="; ".join("%s at %s" % (r.construct, r.site) for r in esc), analysis="EXC effect analysis")
+    # rlist / exlist hold only _genitem objects: they are filled solely through the _genitem constructor
+    for L in ("rlist", "exlist"):
+        uses = []
+        for x in walk_local(it.node):
+            if isinstance(x, ast.Call):
+                args = [src(a) for a in x.args]
+                if L in args:
+                    uses.append(src(x.func))
+            if isinstance(x, ast.Call) and isinstance(x.func, ast.Attribute) and src(x.func.value) == L:
+                uses.append(L + "." + x.func.attr)
+        ok = bool(uses) and set(uses) <= {"self._genitem", "heapq.heapify", "heapq.heapreplace", "heapq.heappop"}
+        ctx.ob("C10.STOPITER", it, "%s is filled only by the _genitem constructor and reordered only by heapq, so advance_iterator() on its root "
+               "is _genitem.__next__ (which contains StopIteration)" % L, ok, construct="who fills %s" % L, detail=str(sorted(set(uses))), analysis="who-may-write")
+    adv = [src(x) for x in walk_local(it.node) if isinstance(x, ast.Call) and src(x.func) == "advance_iterator"]
+    ctx.ob("C10.STOPITER", it, "the merge loop advances only heap roots", sorted(adv) == ["advance_iterator(exitem)", "advance_iterator(ritem)"], construct="advance_iterator sites", detail=str(adv))
 
     # ---------------------------------------------------------------- C10.SORT
     sorts = [n for n in cfg.live_nodes() if n.kind == "stmt" and src(n.ast) in ("self._rdate.sort()", "self._exdate.sort()")]
